@@ -28,7 +28,7 @@ for p in props:
         na.append({"property_id": pid, "reason": (c or {}).get("reason", "check not built yet in this session (planned, see DESIGN.md §4); not claimed until its check exists")})
 m = {
     "version": 1,
-    "setup_cmd": "cd /verif/harness && CARGO_NET_OFFLINE=true cargo build --release --offline -p vcheck && CARGO_NET_OFFLINE=true cargo build --release --offline -p regprobe",
+    "setup_cmd": "cd /verif/harness && CARGO_NET_OFFLINE=true cargo build --release --offline -p vcheck && CARGO_NET_OFFLINE=true cargo build --release --offline -p regprobe && cd /repo && CARGO_NET_OFFLINE=true cargo build --release --offline -p dicom-storescp -p dicom-storescu -p dicom-fromimage -p dicom-toimage --target-dir /verif/target/tools",
     "hooks": {
         "guard": "cargo feature `verif-hooks` on crate dicom-ul (default off)",
         "enable": "the harness crates depend on dicom-ul with features [\"async\", \"verif-hooks\"] (harness/vcheck/Cargo.toml, harness/regprobe/Cargo.toml)",
@@ -38,7 +38,7 @@ m = {
     },
     "engines": [
         {"name": "vcheck", "path": "harness/vcheck", "serves_properties": [c["property_id"] for c in checks],
-         "kind_free_text": "proptest-driven generators + exhaustive enumerations + fault injection against independent reference implementations (harness/refimpl); shrinking to JSON replay files"},
+         "kind_free_text": "proptest-driven generators + exhaustive enumerations + fault injection against independent reference implementations (harness/refimpl); isolated worker processes for crash/abort/hang oracles (C05); scripted protocol peers and the real tool binaries built from /repo (C30, C32, C33, C35); shrinking to JSON replay files"},
     ],
     "checks": checks,
     "not_applicable": na,
